@@ -29,6 +29,7 @@ def shards(tier, seed):
 	out = [dict(name=f'var-{i}', kind='var', sub=i, ngenomes=20 if tier == 'quick' else 80, nvar=50 if tier == 'quick' else 120) for i in range(n)]
 	out.append(dict(name='orient-exh', kind='orient', ngenomes=6 if tier == 'quick' else 40))
 	out.append(dict(name='chromosome', kind='chrom', specs=[(11, 'ATGAC'), (6, 'AT')] if tier == 'quick' else [(11, 'ATGAC'), (6, 'AT'), (16, 'ACG'), (4, 'GATC')], top=21 if tier == 'quick' else 22, nvar=5 if tier == 'quick' else 16))
+	out.append(dict(name='run-directories', kind='dirs', runs=1 if tier == 'quick' else 6, layout=True))
 	out.append(dict(name='cli', kind='cli', ngenomes=3 if tier == 'quick' else 15))
 	out.append(dict(name='asan-var', kind='var', sub=900, ngenomes=4 if tier == 'quick' else 20, nvar=12, sanitizer='asan'))
 	return out
@@ -136,6 +137,11 @@ def run_shard(sh, ctx):
 	rng = random.Random(f'C06-{ctx.seed}-{sh.get("sub", sh["name"])}')
 	if sh['kind'] == 'cli':
 		return run_cli(sh, ctx, rng)
+	if sh['kind'] == 'dirs':
+		# multi-record files (wrapped, CRLF, gzip, multi-member gzip, soft-masked) named by relative paths in one run directory after
+		# another, same names, other genomes: each file's signature is the union over ITS contigs in every execution mode (shared with C13)
+		from vf.props import c13
+		return c13.run_chdir(sh, ctx)
 	if sh['kind'] == 'chrom':
 		# a genome with one chromosome-sized contig (occurrences planted around every power-of-two position and every multiple of
 		# 2^20, on either strand) and two small ones: content-equivalent files - reverse-complemented, reordered, re-cased, re-wrapped,
@@ -253,7 +259,7 @@ def run_cli(sh, ctx, rng):
 def finalize(merged, tier, seed, inconclusive):
 	c = merged['counters']
 	need = ['width:1', 'width:0', 'width:61', 'eol:CRLF', 'eol:LF', 'case:mixed', 'case:lower', 'compression_arg:explicit', 'extension_disagrees_with_content',
-	        'genomes_where_concatenation_would_differ', 'orientation_order_exhaustive_genomes', 'cli_commands', 'broken_files_raised', 'gz:multi', 'chromosome_sized_contigs', 'fragmented_assemblies']
+	        'genomes_where_concatenation_would_differ', 'orientation_order_exhaustive_genomes', 'cli_commands', 'broken_files_raised', 'gz:multi', 'chromosome_sized_contigs', 'fragmented_assemblies', 'relative_paths_after_chdir:processes@third']
 	for n in need:
 		if c.get(n, 0) == 0:
 			inconclusive.append(f'class never observed: {n}')
